@@ -173,7 +173,7 @@ impl Object for Function {
                     ref p => bail!("found a function stream with type {:?}", p)
                 }
             },
-            Primitive::Reference(r) => Self::from_primitive(resolve.resolve(r)?, resolve),
+            Primitive::Reference(r) => Self::from_primitive(resolve_chain(r, resolve)?, resolve),
             _ => bail!("double indirection")
         }
     }
